@@ -344,6 +344,16 @@ def witness_obligations(rep, tier, prog):
             elif fn is None or not fn.endswith('ok/src/lib.rs'):
                 failed_lines.setdefault(-1, '%s: %s' % (fn, msg))
         if rc != 0 and not failed_lines:
+            # a build that fails without any diagnostic may be the machine's fault (a compiler process killed under memory pressure): once more
+            import time as _t
+            _t.sleep(2)
+            rc, msgs, err = cargo_check(root, 'wit_ok', outdir, with_driver=True)
+            for tgtname, fn, line, msg in msgs:
+                if fn and fn.endswith('ok/src/lib.rs') and line in byline:
+                    failed_lines.setdefault(line, msg)
+                elif fn is None or not fn.endswith('ok/src/lib.rs'):
+                    failed_lines.setdefault(-1, '%s: %s' % (fn, msg))
+        if rc != 0 and not failed_lines:
             # fail closed: the witness workspace (a user crate depending on the facade crates with their `macros` feature) does not build and
             # no diagnostic points into it - the macros are not exported, a manifest is broken ...: no well-formed invocation compiles
             failed_lines[-1] = 'the witness crate does not build: %s' % ' '.join(str(err).split())[-400:]
